@@ -114,6 +114,37 @@ def run(ctx: Ctx):
     okl = len(lens) == 1 and u(lens[0].value) == "_lens_from_eos(hyp, eos, dim) + 1"
     lm = [n for n in own_nodes(kt.node) if isinstance(n, ast.Assign) and isinstance(n.value, ast.Compare) and isinstance(n.value.ops[0], (ast.GtE, ast.Gt))]
     okm = len(lm) == 1 and isinstance(lm[0].value.ops[0], ast.GtE) and lens and u(lm[0].value.comparators[0]) == u(lens[0].targets[0])
+    # def-use versions: the first eos and the out-of-vocabulary test are computed on the tokens as given; only the
+    # gather index is the zeroed copy (zeroing first would turn out-of-vocabulary tokens into class 0 - an eos when
+    # eos == 0 - and truncate the sequence there)
+    from sa.defuse import ReachingDefs as _RD
+    for kf in (kt, kp):
+        rdk = _RD(kf.node)
+        tok = kf.params[1].name
+        raw_uses, bad_uses = [], []
+        for c in own_calls(kf.node):
+            tgt = None
+            if call_name(c) == "_lens_from_eos" and c.args:
+                tgt = c.args[0]
+            elif isinstance(c.func, ast.Attribute) and c.func.attr in ("lt", "ge") and isinstance(c.func.value, ast.Name) \
+                    and c.func.value.id == tok:
+                tgt = c.func.value
+            if tgt is not None and any(isinstance(x, ast.Name) and x.id == tok for x in ast.walk(tgt)):
+                zeroed = any(isinstance(x.func, ast.Attribute) and x.func.attr.startswith("masked_fill")
+                             for x in rdk.derives(tgt).calls())
+                (bad_uses if zeroed else raw_uses).append(c)
+        gath = [c for c in own_calls(kf.node) if isinstance(c.func, ast.Attribute) and c.func.attr == "gather"]
+        idx_ok = False
+        for c in gath:
+            for nm in ast.walk(c.args[-1]) if c.args else ():
+                if isinstance(nm, ast.Name) and nm.id == tok:
+                    ds = list(rdk.defs_of(nm))
+                    idx_ok = len(ds) == 1 and ds[0].kind == "assign" and "masked_fill" in u(ds[0].value)
+        col.ob("G16", "S2", f"{rel}::{kf.qualname}::eos-and-oov-read-the-given-tokens", not bad_uses and len(raw_uses) >= 2 and idx_ok,
+               f"`{[u(c)[:50] for c in bad_uses]}` read{'s' if len(bad_uses) == 1 else ''} the token tensor after its out-of-vocabulary positions were "
+               f"overwritten with 0 (gather index from the zeroed copy: {idx_ok}); with eos == 0 an out-of-vocabulary "
+               f"token then ends the sequence instead of being ignored", rel, (bad_uses[0].lineno if bad_uses else kf.line),
+               sample=[u(c)[:60] for c in raw_uses])
     col.ob("G12", "S2", f"{rel}::_sequence_log_probs_tensor::up-to-and-including-first-eos", okl and okm,
            f"positions are dropped under `{u(lm[0].value) if lm else None}` with length `{u(lens[0].value) if lens else None}`; "
            f"expected position >= (first eos index + 1)", rel, kt.line)
@@ -174,6 +205,13 @@ def run(ctx: Ctx):
     okw = len(walks) == 2 and all(u(c.args[0]) == "self.initial_state.copy()" and u(c.args[2]) == "self.max_iters" for c in walks)
     col.ob("G1", "S4", f"{rel}::SequentialLanguageModelDistribution.sample::walk(initial_state.copy(), n, max_iters)", okw,
            f"the walk is run as {[u(c) for c in walks]}", rel, sm.line)
+    # every scoring call of the wrapper starts the model from a fresh copy of the initial state (siblings agree)
+    lmc = [c for c in own_calls(lp.node) if u(c.func) == "self.random_walk.lm"]
+    col.ob("G1", "S4", f"{rel}::SequentialLanguageModelDistribution.log_prob::lm(hist, initial_state.copy())",
+           len(lmc) >= 2 and all(len(c.args) == 2 and u(c.args[1]) == "self.initial_state.copy()" for c in lmc),
+           f"log_prob runs the model as {[u(c) for c in lmc]}; the batched and the unbatched branch must both start "
+           f"from a copy of the distribution's initial state, as sampling does, or the reported log-probability is that "
+           f"of a different distribution", rel, lp.line, sample=[u(c) for c in lmc])
     plumbing(ctx, "S1")
     return dict(
         explanation=(
@@ -193,8 +231,14 @@ def run(ctx: Ctx):
 
 def _mutants():
     from selftest.mutate import Mutant as M
+    _extra = [
+        M("eos-located-after-zeroing", "_decoding.py", "hyp_lens = _lens_from_eos(hyp, eos, dim) + 1", "hyp = hyp.masked_fill(mask, 0)\n        hyp_lens = _lens_from_eos(hyp, eos, dim) + 1", "eos-and-oov-read-the-given-tokens"),
+        M("eos-located-on-zeroed-copy", "_decoding.py", "hyp_lens = _lens_from_eos(hyp, eos, dim) + 1", "hyp_lens = _lens_from_eos(hyp.masked_fill(mask, 0), eos, dim) + 1", "G"),
+        M("unbatched-default-state", "_decoding.py", "log_probs = self.random_walk.lm(hist[:-1].long(), self.initial_state.copy())\n            log_probs = log_probs.transpose(0, 1)", "log_probs = self.random_walk.lm(hist[:-1].long())\n            log_probs = log_probs.transpose(0, 1)", "lm(hist, initial_state.copy())"),
+        M("batched-shared-state", "_decoding.py", "log_probs.append(self.random_walk.lm(hist[:-1].long(), self.initial_state.copy()))", "log_probs.append(self.random_walk.lm(hist[:-1].long(), self.initial_state))", "lm(hist, initial_state.copy())"),
+    ]
     D = "_decoding.py"
-    return [
+    return _extra + [
         M("packed-fill-1", D, "logits = logits.masked_fill(mask, 0.0)\n    logits = torch.nn.utils.rnn.pad_packed_sequence", "logits = logits.masked_fill(mask, 1.0)\n    logits = torch.nn.utils.rnn.pad_packed_sequence", "kernels-agree"),
         M("padded-oov-one-sided", D, "mask = hyp.lt(0) | hyp.ge(num_classes)\n    if eos is not None:", "mask = hyp.ge(num_classes)\n    if eos is not None:", "kernels-agree"),
         M("eos-excluded", D, "hyp_lens = _lens_from_eos(hyp, eos, dim) + 1", "hyp_lens = _lens_from_eos(hyp, eos, dim)", "first-eos"),
